@@ -33,6 +33,7 @@ public:
                     const Epoch e = epoch_management::get_epoch();
                     elem.set_begin_epoch(e);
                     std::atomic_thread_fence(std::memory_order_seq_cst);
+                    YK_VERIF(k_load, &elem, f_epoch, 1);
                     if (e == epoch_management::get_epoch()) { break; }
                 }
                 token = &(elem);
